@@ -45,6 +45,18 @@ def gen_set(rnd):
         if rnd.random() < 0.1:
             L.append('Bogus=1')
         fs[s + '.container'] = '\n'.join(L) + '\n'
+    # Pod= naming an EXISTING unit that is not a pod (another container, the container itself, a volume, a network):
+    # the name table holds units of every type, so only the suffix test keeps these out
+    ctrs = [n for n in fs if n.endswith('.container')]
+    if ctrs and rnd.random() < 0.25:
+        if rnd.random() < 0.5:
+            fs['data.volume'] = '[Volume]\n'
+        if rnd.random() < 0.5:
+            fs['n.network'] = '[Network]\n'
+        victim = rnd.choice(ctrs)
+        target = rnd.choice([n for n in fs if not n.endswith('.pod')])
+        lines = [l for l in fs[victim].split('\n') if l and not l.startswith('Pod=')]
+        fs[victim] = '\n'.join(lines + ['Pod=' + target]) + '\n'
     return fs
 
 
@@ -150,7 +162,7 @@ def gen_tree(rnd):
         files['src/' + name] = text
         ty = refs.ty_of(name)
         for conf in rnd.sample(['10-a.conf', '20-b.conf'], rnd.randint(0, 2)):
-            if rnd.random() < 0.6:
+            if rnd.random() < 0.6 and ty in DROPIN_LINES:
                 files[f'src/{name}.d/{conf}'] = '[' + G.SEC[ty] + ']\n' + rnd.choice(DROPIN_LINES[ty]) + '\n'
     return fs, files
 
